@@ -282,10 +282,10 @@ func (p *plan) buildUnits() {
 		}
 	}
 	for k := range towerKinds {
-		p.units = append(p.units, unit{Kind: "tower", Target: towerTarget(p, k), Seed: k, Cost: 4 << 20})
+		p.units = append(p.units, unit{Kind: "tower", Target: towerTarget(p, k), Seed: k, Cost: 300000})
 	}
 	for g := 0; g < gridChunks; g++ {
-		p.units = append(p.units, unit{Kind: "grid", Target: vi, Seed: g, Cost: 1 << 20})
+		p.units = append(p.units, unit{Kind: "grid", Target: vi, Seed: g, Cost: 100000})
 	}
 }
 
@@ -404,6 +404,7 @@ type executor struct {
 	caseStart atomic.Int64 // unix nanos of the running case, 0 if none
 	caseSeq   atomic.Int64
 	scratch   []byte
+	topCache  map[string]string
 }
 
 func (e *executor) readAlloc() uint64 {
@@ -507,6 +508,10 @@ func snapshotProfile() map[[32]uintptr]profEntry {
 // runCase executes one input against one target and applies the oracle of the property.
 // It returns true if the case produced an allocation failure (for the memo).
 func (e *executor) runCase(t *dtarget, in []byte, desc func() string) (allocFail bool) {
+	return e.runCaseKey(t, in, "", desc)
+}
+
+func (e *executor) runCaseKey(t *dtarget, in []byte, key string, desc func() string) (allocFail bool) {
 	r := e.res
 	r.Evals++
 	var v reflect.Value
@@ -537,7 +542,18 @@ func (e *executor) runCase(t *dtarget, in []byte, desc func() string) (allocFail
 		}
 		if bound := uint64(allocPerByte*len(in) + allocSlack); alloc > bound {
 			v = reflect.Value{}
-			top := e.allocTop(t, in)
+			// the allocation site is determined once per (entry class, site class)
+			ck := key
+			if i := strings.LastIndex(ck, "|"); i > 0 {
+				ck = ck[:strings.LastIndex(ck[:i], "|")]
+			}
+			top, ok := e.topCache[ck]
+			if !ok || ck == "" {
+				top = e.allocTop(t, in)
+				if ck != "" {
+					e.topCache[ck] = top
+				}
+			}
 			r.Outcomes["alloc-over-bound"]++
 			e.violate("decode/"+t.class()+"/alloc/"+top, fmt.Sprintf("allocated %d bytes for an input of %d bytes (bound %d); input %x (%s)", alloc, len(in), bound, clipBytes(in), desc()), rp())
 			return true
@@ -656,7 +672,7 @@ func (e *executor) runUnit(ui int, skip map[int]bool) {
 			if skip[m] {
 				return
 			}
-			key := memoKey(t.Name, s.Sites, mu)
+			key := memoKey(t.class(), s.Sites, mu)
 			if e.memoHit(key) {
 				e.res.Skipped++
 				e.res.NotJudged++
@@ -665,7 +681,7 @@ func (e *executor) runUnit(ui int, skip map[int]bool) {
 			in := mu.apply(s.Bytes, e.scratch)
 			e.scratch = in[:0]
 			e.publish(ui, m, key)
-			if e.runCase(t, in, func() string { return s.Desc + " " + mu.String() }) {
+			if e.runCaseKey(t, in, key, func() string { return s.Desc + " " + mu.String() }) {
 				e.memoAdd(key)
 			}
 			kinds[mu.Kind] = true
@@ -703,7 +719,7 @@ func (e *executor) runPairs(ui int, t *dtarget, s seed, skip map[int]bool) {
 	})
 	keys := make([]string, len(ms))
 	for i, mu := range ms {
-		keys[i] = memoKey(t.Name, s.Sites, mu)
+		keys[i] = memoKey(t.class(), s.Sites, mu)
 	}
 	buf := make([]byte, 0, len(s.Bytes))
 	m := -1
@@ -1003,7 +1019,7 @@ func executorMain(prop string) {
 		fmt.Fprintf(os.Stderr, "executor: %v\n", err)
 		os.Exit(2)
 	}
-	e := &executor{prop: prop, plan: p, memo: map[string]bool{}, sample: []metrics.Sample{{Name: "/gc/heap/allocs:bytes"}}}
+	e := &executor{prop: prop, plan: p, memo: map[string]bool{}, topCache: map[string]string{}, sample: []metrics.Sample{{Name: "/gc/heap/allocs:bytes"}}}
 	if pf := os.Getenv("VERIF_CODEC_PUB"); pf != "" {
 		if f, err := os.OpenFile(pf, os.O_RDWR, 0); err == nil {
 			e.pub, _ = syscall.Mmap(int(f.Fd()), 0, 4096, syscall.PROT_READ|syscall.PROT_WRITE, syscall.MAP_SHARED)
@@ -1201,6 +1217,12 @@ func superviseShard(prop string, s evid.ShardInfo, w *evid.Run, p *plan, assign 
 		}
 		deaths++
 		kind, top := deathClass(stderr, werr.Error())
+		if lf := os.Getenv("VERIF_CODEC_LOG"); lf != "" {
+			if f, err := os.OpenFile(lf, os.O_WRONLY|os.O_APPEND|os.O_CREATE, 0o644); err == nil {
+				fmt.Fprintf(f, "shard %d death #%d unit %d case %d key %q kind %s top %s err %v\n%s\n", s.Index, deaths, ui, m, key, kind, top, werr, firstLines(stderr, 12))
+				f.Close()
+			}
+		}
 		u := myUnits[ui]
 		t := p.targets[u.Target]
 		in, desc := reconstructCase(p, u, m)
@@ -1386,7 +1408,7 @@ func replayC02(prop string, rc caseReplay) {
 		} else {
 			in, _ = hex.DecodeString(rc.Hex)
 		}
-		e := &executor{prop: prop, plan: p, memo: map[string]bool{}, sample: []metrics.Sample{{Name: "/gc/heap/allocs:bytes"}}}
+		e := &executor{prop: prop, plan: p, memo: map[string]bool{}, topCache: map[string]string{}, sample: []metrics.Sample{{Name: "/gc/heap/allocs:bytes"}}}
 		e.res = &unitResult{Outcomes: map[string]int64{}}
 		fmt.Printf("replay %s target=%s input(%d bytes)=%x\n", rc.Desc, t.Name, len(in), clipBytes(in))
 		e.runCase(t, in, func() string { return rc.Desc })
